@@ -554,7 +554,77 @@ def _rows_grid_dep_first_row():
     PointSampler._sample_for_ith_param = f
 
 
+def _nrm_par_flip():
+    import torch
+    from torchphysics.problem.domains.domain2D.parallelogram import ParallelogramBoundary
+
+    def g(self, direction, device):
+        normal = torch.index_select(direction, 1, torch.tensor([1, 0], device=device))
+        normal[:, 1:] *= -1                      # the other coordinate negated: normal flipped
+        return torch.divide(normal, torch.linalg.norm(normal, dim=1).reshape(-1, 1))
+    ParallelogramBoundary._get_normal_direction = g
+
+
+def _nrm_cut_noflip():
+    import torch
+    from torchphysics.problem.domains.domainoperations.cut import CutBoundaryDomain
+    from torchphysics.problem.spaces import Points
+
+    def normal(self, points, params=Points.empty(), device="cpu"):
+        points, params, device = self._transform_input_for_normals(points, params, device)
+        a = self.domain.domain_a.boundary.normal(points, params, device)
+        b = self.domain.domain_b.boundary.normal(points, params, device)
+        on_a = self.domain.domain_a.boundary._contains(points, params)
+        return torch.where(on_a, a, b)
+    CutBoundaryDomain.normal = normal
+
+
+def _nrm_union_wrong_operand():
+    import torch
+    from torchphysics.problem.domains.domainoperations.union import UnionBoundaryDomain
+    from torchphysics.problem.spaces import Points
+
+    def normal(self, points, params=Points.empty(), device="cpu"):
+        points, params, device = self._transform_input_for_normals(points, params, device)
+        a = self.domain.domain_a.boundary.normal(points, params, device)
+        b = self.domain.domain_b.boundary.normal(points, params, device)
+        on_b = self.domain.domain_b.boundary._contains(points, params)
+        return torch.where(on_b, a, b)
+    UnionBoundaryDomain.normal = normal
+
+
+def _nrm_circle_unnormalised():
+    from torchphysics.problem.domains.domain2D.circle import CircleBoundary
+    from torchphysics.problem.spaces import Points
+
+    def normal(self, points, params=Points.empty(), device="cpu"):
+        points, params, device = self._transform_input_for_normals(points, params, device)
+        c, r = self.domain._compute_center_and_radius(points.join(params), device)
+        return points[:, list(self.space.keys())].as_tensor - c          # not divided by the radius
+    CircleBoundary.normal = normal
+
+
+def _nrm_tri_orientation_dropped():
+    import torch
+    from torchphysics.problem.domains.domain2D.triangle import TriangleBoundary
+    from torchphysics.problem.spaces import Points
+
+    def normal(self, points, params=Points.empty(), device="cpu"):
+        points, params, device = self._transform_input_for_normals(points, params, device)
+        o, _, _, d1, d2, d3 = self.domain._construct_triangle(points.join(params), device)
+        p = points[:, list(self.space.keys())].as_tensor
+        n = torch.zeros_like(p)
+        bx, by = self.domain._solve_lgs(p - o, d1, -d3)
+        self._add_local_normal_vector(n, bx, self._get_normal_direction(d3, device), 0.0)
+        self._add_local_normal_vector(n, bx + by, self._get_normal_direction(d2, device), 1.0)
+        self._add_local_normal_vector(n, by, self._get_normal_direction(d1, device), 0.0)
+        return torch.divide(n, torch.linalg.norm(n, dim=1).reshape(-1, 1))
+    TriangleBoundary.normal = normal
+
+
 REGISTRY = {
+    "nrm_par_flip": _nrm_par_flip, "nrm_cut_noflip": _nrm_cut_noflip, "nrm_union_wrong_operand": _nrm_union_wrong_operand,
+    "nrm_circle_unnormalised": _nrm_circle_unnormalised, "nrm_tri_orientation_dropped": _nrm_tri_orientation_dropped,
     "rows_repeat_tile": _rows_repeat_tile, "rows_prod_outer": _rows_prod_outer, "rows_cut_n_plus_1": _rows_cut_n_plus_1,
     "rows_len_stale": _rows_len_stale, "rows_grid_dep_first_row": _rows_grid_dep_first_row,
     "pe_circle_radius_kept": _pe_circle_radius_kept, "pe_nv_left_only": _pe_nv_left_only,
@@ -577,6 +647,7 @@ REGISTRY = {
     "dl_target_perm": _dl_target_perm, "dl_len_floor": _dl_len_floor, "dl_agg_global_mean": _dl_agg_sum,
 }
 BY_PROPERTY = {
+    "C06": ["nrm_par_flip", "nrm_cut_noflip", "nrm_union_wrong_operand", "nrm_circle_unnormalised", "nrm_tri_orientation_dropped"],
     "C02": ["rows_repeat_tile", "rows_prod_outer", "rows_cut_n_plus_1", "rows_len_stale", "rows_grid_dep_first_row"],
     "C17": ["pe_circle_radius_kept", "pe_nv_left_only", "pe_product_keeps_vars", "pe_translate_inner_unbound", "pe_mutates_original"],
     "C18": ["box_union_swapped", "box_circle_axis", "box_rotate_two_corners", "box_interval_first_row"],
